@@ -40,43 +40,63 @@ theorem unread_readByte (z : Z) (c : Nat) (h : peek z = some c) : unread (readBy
   cases z
   simp [unread]
 
-/-- `readTagAttrKey` either consumes something, or stops in front of white space or `/`. -/
-theorem key_progress (z : Z) (h : Ok z) (he : z.err = .none) (c : Nat) (hp : peek z = some c) (hc : c ≠ 62) :
-    z.rawEnd + 1 ≤ (readTagAttrKey z).rawEnd ∨
-    ((readTagAttrKey z).rawEnd = z.rawEnd ∧ (readTagAttrKey z).err = .none ∧ peek (readTagAttrKey z) = some c ∧
-      (isWS c = true ∨ c = 47)) := by
-  unfold readTagAttrKey
-  have hp0 : peek { z with pkStart := z.rawEnd } = some c := hp
-  have h0 : Ok { z with pkStart := z.rawEnd } := h
-  generalize hz0 : ({ z with pkStart := z.rawEnd } : Z) = z0 at hp0 h0
-  have e0 : z0.rawEnd = z.rawEnd := by rw [← hz0]
-  have e0k : z0.pkStart = z.rawEnd := by rw [← hz0]
-  have e0e : z0.err = .none := by rw [← hz0]; exact he
-  have hrb := readByte_of_peek z0 c hp0
-  have hok1 : Ok { z0 with rawEnd := z0.rawEnd + 1 } := by
-    have := ok_of_mono h0 (rb z0 h0).1; rw [hrb] at this; exact this
-  have hsz : z0.inp.size + 2 = (z0.inp.size + 1) + 1 := rfl
-  rw [hsz]
-  simp only [attrKeyLoop, hrb, e0e, ne_eq, not_true_eq_false, if_false]
-  have cont : z.rawEnd + 1 ≤ (attrKeyLoop (z0.inp.size + 1) { z0 with rawEnd := z0.rawEnd + 1 }).rawEnd := by
-    have := (mono_attrKeyLoop (z0.inp.size + 1) _ hok1).1
-    simp only [e0] at this; exact this
+/-- what a successful read gives, with the new state kept opaque -/
+theorem read_facts (z : Z) (h : Ok z) (he : z.err = .none) (c : Nat) (hp : peek z = some c) :
+    ∃ z1, readByte z = (c, z1) ∧ z1.err = .none ∧ z1.rawEnd = z.rawEnd + 1 ∧ z1.pkStart = z.pkStart ∧
+      Ok z1 ∧ unread z1 = z ∧ z1.inp = z.inp := by
+  refine ⟨{ z with rawEnd := z.rawEnd + 1 }, readByte_of_peek z c hp, he, rfl, rfl, ?_, ?_, rfl⟩
+  · have := ok_of_mono h (rb z h).1; rw [readByte_of_peek z c hp] at this; exact this
+  · have := unread_readByte z c hp; rw [readByte_of_peek z c hp] at this; exact this
+
+theorem attrKeyLoop_first (f : Nat) (z0 : Z) (h0 : Ok z0) (he : z0.err = .none) (c : Nat) (hp : peek z0 = some c)
+    (hk : z0.pkStart = z0.rawEnd) (hc : c ≠ 62) :
+    z0.rawEnd + 1 ≤ (attrKeyLoop (f + 1) z0).rawEnd ∨
+    ((attrKeyLoop (f + 1) z0).rawEnd = z0.rawEnd ∧ (attrKeyLoop (f + 1) z0).err = .none ∧
+      peek (attrKeyLoop (f + 1) z0) = some c ∧ (isWS c = true ∨ c = 47)) := by
+  obtain ⟨z1, hrb, e1, r1, k1, ok1, u1, i1⟩ := read_facts z0 h0 he c hp
+  have cont : z0.rawEnd + 1 ≤ (attrKeyLoop f z1).rawEnd := by
+    have := (mono_attrKeyLoop f z1 ok1).1; omega
+  simp only [attrKeyLoop, hrb]
+  rw [if_neg (by simp [e1])]
   split
   · exact Or.inl cont
   · rename_i hn1
     split
     · rename_i hterm
       right
-      have hu : unread { z0 with rawEnd := z0.rawEnd + 1 } = z0 := by
-        have := unread_readByte z0 c hp0; rw [hrb] at this; exact this
-      simp only [hu]
-      refine ⟨e0, e0e, hp0, ?_⟩
+      rw [u1]
+      refine ⟨rfl, he, hp, ?_⟩
       rcases hterm with h1 | h1 | h1 | h1
-      · exfalso; apply hn1; refine ⟨h1, ?_⟩; simp only [e0k, e0]
+      · exfalso; apply hn1; exact ⟨h1, by rw [k1, hk, r1]⟩
       · exact Or.inl h1
       · exact Or.inr (by simpa using h1)
       · exact absurd (by simpa using h1) hc
     · exact Or.inl cont
+
+/-- `readTagAttrKey` either consumes something, or stops in front of white space or `/`. -/
+theorem key_progress (z : Z) (h : Ok z) (he : z.err = .none) (c : Nat) (hp : peek z = some c) (hc : c ≠ 62) :
+    z.rawEnd + 1 ≤ (readTagAttrKey z).rawEnd ∨
+    ((readTagAttrKey z).rawEnd = z.rawEnd ∧ (readTagAttrKey z).err = .none ∧ peek (readTagAttrKey z) = some c ∧
+      (isWS c = true ∨ c = 47)) := by
+  unfold readTagAttrKey
+  exact attrKeyLoop_first (z.inp.size + 1) { z with pkStart := z.rawEnd } h he c hp rfl hc
+
+theorem skipWS_first (z0 : Z) (h0 : Ok z0) (he : z0.err = .none) (c : Nat) (hp : peek z0 = some c) :
+    (isWS c = true → z0.rawEnd + 1 ≤ (skipWhiteSpace z0).rawEnd) ∧ (isWS c = false → skipWhiteSpace z0 = z0) := by
+  obtain ⟨z1, hrb, e1, r1, k1, ok1, u1, i1⟩ := read_facts z0 h0 he c hp
+  unfold skipWhiteSpace
+  rw [if_neg (by simp [he])]
+  have hsz : z0.inp.size + 2 = (z0.inp.size + 1) + 1 := rfl
+  rw [hsz, skipWSLoop]
+  simp only [hrb]
+  rw [if_neg (by simp [e1])]
+  constructor
+  · intro hws
+    rw [if_pos hws]
+    have := (mono_skipWSLoop (z0.inp.size + 1) z1 ok1).1; omega
+  · intro hws
+    rw [if_neg (by simp [hws])]
+    exact u1
 
 /-- in front of white space or `/`, `readTagAttrVal` consumes at least one byte -/
 theorem val_progress (z : Z) (h : Ok z) (he : z.err = .none) (c : Nat) (hp : peek z = some c)
@@ -85,32 +105,13 @@ theorem val_progress (z : Z) (h : Ok z) (he : z.err = .none) (c : Nat) (hp : pee
   simp only []
   have hp0 : peek { z with pvStart := z.rawEnd, pvEnd := z.rawEnd } = some c := hp
   have h0 : Ok { z with pvStart := z.rawEnd, pvEnd := z.rawEnd } := h
-  generalize hz0 : ({ z with pvStart := z.rawEnd, pvEnd := z.rawEnd } : Z) = z0 at hp0 h0
-  have e0 : z0.rawEnd = z.rawEnd := by rw [← hz0]
-  have e0e : z0.err = .none := by rw [← hz0]; exact he
-  have hrb := readByte_of_peek z0 c hp0
-  have hok1 : Ok { z0 with rawEnd := z0.rawEnd + 1 } := by
-    have := ok_of_mono h0 (rb z0 h0).1; rw [hrb] at this; exact this
-  -- skipWhiteSpace z0
-  have hsz : z0.inp.size + 2 = (z0.inp.size + 1) + 1 := rfl
-  have hskip : (isWS c = true → z.rawEnd + 1 ≤ (skipWhiteSpace z0).rawEnd) ∧ (c = 47 → skipWhiteSpace z0 = z0) := by
-    unfold skipWhiteSpace
-    simp only [e0e, ne_eq, not_true_eq_false, if_false]
-    rw [hsz]
-    simp only [skipWSLoop, hrb, e0e, ne_eq, not_true_eq_false, if_false]
-    constructor
-    · intro hws
-      simp only [hws, if_true]
-      have := (mono_skipWSLoop (z0.inp.size + 1) _ hok1).1
-      simp only [e0] at this; exact this
-    · intro h47
-      have : isWS c = false := by subst h47; decide
-      simp only [this, Bool.false_eq_true, if_false]
-      have := unread_readByte z0 c hp0; rw [hrb] at this; exact this
+  have e0 : ({ z with pvStart := z.rawEnd, pvEnd := z.rawEnd } : Z).rawEnd = z.rawEnd := rfl
+  have e0e : ({ z with pvStart := z.rawEnd, pvEnd := z.rawEnd } : Z).err = .none := he
+  generalize ({ z with pvStart := z.rawEnd, pvEnd := z.rawEnd } : Z) = z0 at hp0 h0 e0 e0e ⊢
+  have hskip := skipWS_first z0 h0 e0e c hp0
   rcases hc with hws | h47
   · -- white space: everything after skipWhiteSpace only moves forward
-    have hm := mono_readTagAttrVal z h
-    have key : z.rawEnd + 1 ≤ (skipWhiteSpace z0).rawEnd := hskip.1 hws
+    have key : z.rawEnd + 1 ≤ (skipWhiteSpace z0).rawEnd := by have := hskip.1 hws; omega
     have hw := mono_skipWhiteSpace z0 h0
     have hokw := ok_of_mono h0 hw
     generalize skipWhiteSpace z0 = z1 at key hw hokw ⊢
@@ -141,15 +142,174 @@ theorem val_progress (z : Z) (h : Ok z) (he : z.err = .none) (c : Nat) (hp : pee
                 split
                 · have := (hw2.trans (hu2 e4)).1; omega
                 · split
-                  · have := (hm2.trans (mono_quotedValLoop _ _ { (readByte z2).2 with pvStart := (readByte z2).2.rawEnd } hok2)).1
-                    omega
-                  · have := (hm2.trans (mono_unquotedValLoop _ { (readByte z2).2 with pvStart := (readByte z2).2.rawEnd - 1 } hok2)).1
-                    omega
+                  · exact Nat.le_trans key (hm2.trans (mono_quotedValLoop _ _ { (readByte z2).2 with pvStart := (readByte z2).2.rawEnd } hok2)).1
+                  · exact Nat.le_trans key (hm2.trans (mono_unquotedValLoop _ { (readByte z2).2 with pvStart := (readByte z2).2.rawEnd - 1 } hok2)).1
   · -- `/`: skipWhiteSpace does nothing, the next readByte consumes the `/` and returns
-    rw [hskip.2 h47]
-    simp only [e0e, ne_eq, not_true_eq_false, if_false, hrb]
+    have hnws : isWS c = false := by subst h47; decide
+    rw [hskip.2 hnws]
+    obtain ⟨z1, hrb, e1, r1, k1, ok1, u1, i1⟩ := read_facts z0 h0 e0e c hp0
+    rw [if_neg (by simp [e0e])]
+    simp only [hrb]
+    rw [if_neg (by simp [e1])]
     subst h47
-    simp only [beq_self_eq_true, if_true, e0]
-    exact Nat.le_refl _
+    simp only [beq_self_eq_true, if_true]
+    omega
+
+/-- one round of the attribute loop (key, value) consumes at least one byte -/
+theorem attr_round_progress (z : Z) (h : Ok z) (he : z.err = .none) (c : Nat) (hp : peek z = some c) (hc : c ≠ 62) :
+    z.rawEnd + 1 ≤ (readTagAttrVal (readTagAttrKey z)).rawEnd := by
+  have hk := mono_readTagAttrKey z h
+  have hokk := ok_of_mono h hk
+  rcases key_progress z h he c hp hc with h1 | ⟨h1, h2, h3, h4⟩
+  · have := (mono_readTagAttrVal _ hokk).1; omega
+  · have := val_progress _ hokk h2 c h3 h4; omega
+
+theorem fo_tagLoop (f : Nat) (sa : Bool) (z : Z) (h : Ok z) (he : z.err = .none) (hf : rem z < f) :
+    (tagLoop f sa z).fuelOut = z.fuelOut := by
+  induction f generalizing z with
+  | zero => omega
+  | succ f ih =>
+    have hr := rb z h
+    have hfo := fo_readByte z
+    simp only [tagLoop]
+    split
+    · exact hfo
+    · rename_i hno; simp only [not_or, ne_eq, Decidable.not_not] at hno
+      have hp := peek_of_readByte z h he hno.1
+      have hu : unread (readByte z).2 = z := unread_readByte z _ hp
+      rw [hu]
+      have hc : (readByte z).1 ≠ 62 := by intro e; exact hno.2 (by simp [e])
+      have hprog := attr_round_progress z h he _ hp hc
+      have hk := mono_readTagAttrKey z h
+      have hokk := ok_of_mono h hk
+      have hv := hk.trans (mono_readTagAttrVal _ hokk)
+      have hokv := ok_of_mono h hv
+      have hfv : (readTagAttrVal (readTagAttrKey z)).fuelOut = z.fuelOut := by
+        rw [fo_readTagAttrVal _ hokk, fo_readTagAttrKey z h]
+      generalize readTagAttrVal (readTagAttrKey z) = zv at hprog hv hokv hfv ⊢
+      have key : ∀ z' : Z, Ok z' → z.rawEnd + 1 ≤ z'.rawEnd → z'.inp = z.inp → z'.fuelOut = z.fuelOut →
+          (if (skipWhiteSpace z').err ≠ .none then skipWhiteSpace z' else tagLoop f sa (skipWhiteSpace z')).fuelOut
+            = z.fuelOut := by
+        intro z' hok' hpr hinp hfo'
+        have hw := mono_skipWhiteSpace z' hok'
+        have hfw := (fo_skipWhiteSpace z' hok').trans hfo'
+        split
+        · exact hfw
+        · rename_i e; simp only [ne_eq, Decidable.not_not] at e
+          have hrem : rem (skipWhiteSpace z') + 1 ≤ rem z := by
+            obtain ⟨w1, w2, w3, w4, w5⟩ := hw
+            rw [w3, hinp] at w2
+            show (skipWhiteSpace z').inp.size - (skipWhiteSpace z').rawEnd + 1 ≤ z.inp.size - z.rawEnd
+            rw [w3, hinp]; omega
+          rw [ih _ (ok_of_mono hok' hw) e (by omega)]; exact hfw
+      split
+      · exact key _ hokv hprog hv.2.2.1 hfv
+      · exact key _ hokv hprog hv.2.2.1 hfv
+
+theorem fo_readTag (sa : Bool) (z : Z) (h : Ok z) : (readTag sa z).fuelOut = z.fuelOut := by
+  unfold readTag
+  simp only []
+  have h0 : Ok { z with nAttr := 0, lastValEnd := 0, attrNames := [] } := h
+  have hn : Mono z (readTagName { z with nAttr := 0, lastValEnd := 0, attrNames := [] }) := mono_readTagName _ h0
+  have hfn : (readTagName { z with nAttr := 0, lastValEnd := 0, attrNames := [] }).fuelOut = z.fuelOut :=
+    fo_readTagName _ h0
+  have hokn := ok_of_mono h hn
+  have hw := mono_skipWhiteSpace _ hokn
+  have hfw := (fo_skipWhiteSpace _ hokn).trans hfn
+  have := rem_le_size (skipWhiteSpace (readTagName { z with nAttr := 0, lastValEnd := 0, attrNames := [] }))
+  split
+  · exact hfw
+  · rename_i e; simp only [ne_eq, Decidable.not_not] at e
+    rw [fo_tagLoop _ _ _ (ok_of_mono hokn hw) e (by omega)]; exact hfw
+
+theorem fo_readStartTag (z : Z) (h : Ok z) : (readStartTag z).2.fuelOut = z.fuelOut := by
+  unfold readStartTag
+  simp only []
+  have ht := fo_readTag true z h
+  generalize readTag true z = z1 at ht ⊢
+  repeat' split
+  all_goals exact ht
+
+theorem fo_finishText (z : Z) : (finishText z).2.fuelOut = z.fuelOut := by
+  unfold finishText; split <;> rfl
+
+theorem fo_endTagOpen (z : Z) (h : Ok z) : (endTagOpen z).2.fuelOut = z.fuelOut := by
+  unfold endTagOpen
+  have hr := rb z h
+  have hu := mono_unread1 z h
+  have hok := ok_of_mono h hr.1
+  have hfo := fo_readByte z
+  simp only []
+  split
+  · rw [fo_finishText]; exact hfo
+  · rename_i e; simp only [ne_eq, Decidable.not_not] at e
+    split
+    · exact hfo
+    · split
+      · have ht := (fo_readTag false _ hok).trans hfo
+        split <;> exact ht
+      · rw [fo_readUntilCloseAngle _ (ok_of_mono h (hu e))]; exact hfo
+
+theorem fo_dispatch (k c : Nat) (z : Z) (h : Ok z) : (dispatch k c z).2.fuelOut = z.fuelOut := by
+  unfold dispatch
+  split
+  · rfl
+  · split
+    · exact fo_readStartTag z h
+    · split
+      · exact fo_endTagOpen z h
+      · split
+        · exact fo_readMarkupDeclaration z h
+        · have hoku : Ok (unread z) := ⟨by show z.rawEnd - 1 ≤ z.inp.size; have h1 : z.rawEnd ≤ z.inp.size := h.1; omega, h.2⟩
+          exact fo_readUntilCloseAngle _ hoku
+
+theorem fo_mainLoop (f : Nat) (z : Z) (h : Ok z) (hf : rem z < f) : (mainLoop f z).2.fuelOut = z.fuelOut := by
+  induction f generalizing z with
+  | zero => omega
+  | succ f ih =>
+    have hr := rb z h
+    have hok := ok_of_mono h hr.1
+    have hfo := fo_readByte z
+    simp only [mainLoop]
+    split
+    · rw [fo_finishText]; exact hfo
+    · rename_i e1; simp only [ne_eq, Decidable.not_not] at e1
+      have p1 := rem_read z h e1
+      split
+      · rw [ih _ hok (by omega)]; exact hfo
+      · have hr2 := rb _ hok
+        have hok2 := ok_of_mono hok hr2.1
+        have hfo2 := (fo_readByte (readByte z).2).trans hfo
+        split
+        · rw [fo_finishText]; exact hfo2
+        · rename_i e2; simp only [ne_eq, Decidable.not_not] at e2
+          split
+          · have hu := mono_unread1 _ hok e2
+            have q := rem_mono hu
+            rw [ih _ (ok_of_mono hok hu) (by omega)]; exact hfo2
+          · rw [fo_dispatch _ _ _ hok2]; exact hfo2
+
+/-- `Next` never runs out of fuel. -/
+theorem fo_next (z : Z) (h : Ok z) : (next z).2.fuelOut = z.fuelOut := by
+  unfold next
+  simp only []
+  have hst : Ok (startToken z) := h
+  have hss : (startToken z).rawStart ≤ (startToken z).rawEnd := Nat.le_refl _
+  have hfs : (startToken z).fuelOut = z.fuelOut := rfl
+  generalize startToken z = z1 at hst hss hfs ⊢
+  have hrem := rem_le_size z1
+  split
+  · exact hfs
+  · split
+    · have ha := span_rawTextAttempt z1 hst hss
+      have hfa := (fo_rawTextAttempt z1 hst hss).trans hfs
+      generalize rawTextAttempt z1 = z2 at ha hfa ⊢
+      split
+      · exact hfa
+      · obtain ⟨a1, a2, a3, a4, a5⟩ := ha
+        have hok2 : Ok z2 := ⟨a2, by rw [a5]; exact hst.2⟩
+        have := rem_le_size z2
+        rw [fo_mainLoop _ z2 hok2 (by omega)]; exact hfa
+    · rw [fo_mainLoop _ z1 hst (by omega)]; exact hfs
 
 end NetVerif.Proofs.Lemmas.HtmlTokFuel
